@@ -77,11 +77,33 @@ class ReactiveStdin(object):
         self.fam, self.out, self.script = fam, out, dict((k, list(v)) for k, v in script.items())
         self.default = default
         self.mark = 0
+        self.pending = ""     # rest of an answer line that was read with a size limit
         self.asked = []       # metric per question, in order (None = unattributable)
         self.prompts = []
         self.answers = []
 
-    def readline(self, *a):
+    def readline(self, size=-1):
+        """Like a real text stream: at most `size` characters of the current line; what is left of
+        the line is what the next call returns (a reader that limits the size sees one answer
+        line as several)."""
+        line = self._next_line() if not self.pending else self._rest()
+        if size is not None and 0 <= size < len(line):
+            self.pending, line = line[size:], line[:size]
+        return line
+
+    def _rest(self):
+        text = self.out.getvalue()
+        new = text[self.mark:]
+        self.mark = len(text)
+        last = new.rsplit("\n", 1)[-1]
+        name = last.rsplit(":", 1)[0] if ":" in last else last
+        self.asked.append(attribute(self.fam, name))
+        self.prompts.append(last)
+        self.answers.append("<rest of the previous answer line>")
+        line, self.pending = self.pending, ""
+        return line
+
+    def _next_line(self):
         text = self.out.getvalue()
         new = text[self.mark:]
         self.mark = len(text)
